@@ -284,15 +284,25 @@ def run(ctx):
     ctx.floor("R15.5", "access-count consumer threads", len(cons), 1)
     for c in cons:
         ctx.touch(c)
-        R = [b for b, t in c.calls() if t["callee"].endswith("Receiver::<T>::recv")][0]
+        # every point at which the consumer takes an event off the channel (the blocking recv of the loop, and any
+        # try_recv / recv_timeout / iterator that drains more): what is taken there is gone from the channel, so each such
+        # point owes the same thing - a Full(buffer) received is applied
+        DEQ = ("Receiver::<T>::recv", "Receiver::<T>::try_recv", "Receiver::<T>::recv_timeout", "Receiver::<T>::recv_deadline")
+        Rs = [b for b, t in c.calls() if t["callee"].endswith(DEQ) and "BufferEvent" in " ".join(t.get("gargs", []))]
+        drains = [b for b, t in c.calls() if t["callee"].endswith(("Receiver::<T>::iter", "Receiver::<T>::try_iter", "Receiver::<T>::into_iter")) and "BufferEvent" in " ".join(t.get("gargs", []))]
+        ctx.check(not drains, "R15.5", "%s|no-unaccounted-drain" % c.name, "the consumer takes events only at points where each one is examined (no iterator draining the access channel)", c.where(drains[0]) if drains else c.where())
         own_ = (outer_fn_(F, c).rec.get("self_ty") or "").split("<")[0]
         # one iteration of the loop; helpers of the same type (a per-event function) inlined, everything else opaque
-        paths = ipaths(F, c, stop=lambda n2: not (n2 in F.fns and (F.fns[n2].kind == "Closure" or (F.fns[n2].rec.get("self_ty") or "").split("<")[0] == own_)),
-                       depth=2, start=R, ends=set(c.return_blocks()) | {R})
+        paths = []
+        for R in Rs:
+            paths += [(R, p) for p in ipaths(F, c, stop=lambda n2: not (n2 in F.fns and (F.fns[n2].kind == "Closure" or (F.fns[n2].rec.get("self_ty") or "").split("<")[0] == own_)),
+                                             depth=2, start=R, ends=set(c.return_blocks()) | set(Rs))]
         ctx.analysed["paths"] += len(paths)
         bad = []
         nfull = 0
-        for p in paths:
+        R = Rs[0]
+        for R_, p in paths:
+            R = R_
             re_ = [e for e in p.events if e.fn is c and e.bb == R]
             if not re_:
                 continue
